@@ -10,7 +10,7 @@ from .. import use_repo, shim
 from ..kernel import MonEnv
 from ..monitor import Monitor
 
-DELAYS = (0, 0.25, 0.45, 0.5, 1, 1.3, 2, 0.7)
+DELAYS = (0, 0.25, 0.45, 0.5, 1, 1.3, 2, 0.7, 1 / 3, 0.7071067811865476)
 ARRIVALS = (0.5, 1, 1.5, 0.3, 2, 0.7, 0.25)
 SETUPS = (0, 0, 0.5, 1.3)
 
@@ -104,7 +104,7 @@ def rnd_edge(rng, eid, src_t, dst_t, src_blocking, src_out_policy, profile, item
     cap = rng.choice((1, 1, 2, 3, 4)) if congested else rng.choice((1, 2, 3, 4, 6))
     e = {"id": eid, "type": t}
     if t.startswith("buffer"):
-        e.update(capacity=cap, delay=rnd_delay_desc(rng, (0, 0, 0.25, 0.5, 1, 0.3)), mode="FIFO" if t.endswith("fifo") else "LIFO")
+        e.update(capacity=cap, delay=rnd_delay_desc(rng, (0, 0, 0.25, 0.5, 1, 0.3, 1 / 3, 0.7071067811865476)), mode="FIFO" if t.endswith("fifo") else "LIFO")
     elif t == "fleet":
         e.update(capacity=cap, delay=rng.choice((0.5, 1, 2)), transit=rng.choice((0, 0.25, 0.5, 1)))
     elif t == "conv":
@@ -121,7 +121,7 @@ def gen_spec(seed, profile="core", variant=None, templates=None):
     rng = random.Random(seed)
     variant = variant or rng.choice(("plain", "plain", "congested", "starved", "finite", "finite"))
     congested = variant == "congested"
-    template = rng.choice([t for t in (templates or ()) if t != "twin"] or ("line", "line", "line", "diamond", "pack", "packunpack", "multisink", "fanin", "splitline", "mesh", "rework"))
+    template = rng.choice([t for t in (templates or ()) if t != "twin"] or ("line", "line", "line", "diamond", "pack", "packunpack", "multisink", "fanin", "splitline", "mesh", "rework", "packpack"))
     item_len = rng.choice((1, 1, 0.5))
     nodes, conns = [], []
 
@@ -248,6 +248,29 @@ def gen_spec(seed, profile="core", variant=None, templates=None):
                 machine("M1")
                 conn("M0", "M1")
                 conn("M1", "K0")
+        elif template == "packpack":
+            # a packed pallet is the pallet input of a second combiner: pallets that are not empty when they arrive
+            r1 = rng.choice(([1, 1], [1, 2], [1, 1, 1]))
+            r2 = rng.choice(([1, 1], [1, 2], [1, 3], [1, 1, 2]))
+            src("SP", "pallet")
+            for i in range(1, len(r1)):
+                src(f"SI{i}")
+            combiner("C0", r1)
+            conn("SP", "C0")
+            for i in range(1, len(r1)):
+                conn(f"SI{i}", "C0")
+            combiner("C1", r2)
+            conn("C0", "C1")
+            for i in range(1, len(r2)):
+                src(f"SJ{i}")
+                conn(f"SJ{i}", "C1")
+            last = "C1"
+            if rng.random() < 0.4:
+                splitter("P0")
+                conn("C1", "P0")
+                last = "P0"
+            sink("K0")
+            conn(last, "K0")
         elif template == "multisink":
             src("S0")
             machine("M0")
@@ -333,7 +356,9 @@ def gen_spec(seed, profile="core", variant=None, templates=None):
         T = rng.choice((300, 400.5))
     return {"seed": seed, "profile": profile, "variant": variant, "template": template, "nodes": nodes, "edges": edges,
             "construct_order": order, "connect_order": corder, "T": T, "random_seed": rng.randrange(10 ** 6), "item_length": item_len,
-            "inject": inject, "twin": twin}
+            "inject": inject, "twin": twin,
+            # edges handed to the node constructors (in_edges=[...], out_edges=[...], as tests/test_machine.py does) and then connected
+            "ctor_edges": rng.random() < 0.15}
 
 
 # ----------------------------------------------------------------------------- build
@@ -374,29 +399,46 @@ def build(spec, env):
             return seq(p, name).param()
         return p
 
-    for oid in spec["construct_order"]:
+    ctor = bool(spec.get("ctor_edges"))
+    order = spec["construct_order"]
+    ins, outs = {}, {}
+    if ctor:
+        order = [o for o in order if o in edesc] + [o for o in order if o in ndesc]
+        for eid in spec["connect_order"]:
+            outs.setdefault(edesc[eid]["src"], []).append(eid)
+            ins.setdefault(edesc[eid]["dst"], []).append(eid)
+
+    def ekw(oid, with_out=True):
+        if not ctor:
+            return {}
+        kw = {"in_edges": [m.edges[e] for e in ins.get(oid, [])] or None}
+        if with_out:
+            kw["out_edges"] = [m.edges[e] for e in outs.get(oid, [])] or None
+        return kw
+
+    for oid in order:
         if oid in ndesc:
             n = ndesc[oid]
             t = n["type"]
             if t == "source":
                 obj = Source(env, oid, item_length=n["item_length"], flow_item_type=n["flow"],
                              inter_arrival_time=seq(n["ia"], oid + ".ia").param(), blocking=n["blocking"],
-                             out_edge_selection=policy(n["out_sel"], oid + ".out"))
+                             out_edge_selection=policy(n["out_sel"], oid + ".out"), **ekw(oid))
             elif t == "machine":
                 obj = Machine(env, oid, node_setup_time=n["setup"], work_capacity=n["wc"],
                               processing_delay=seq(n["delay"], oid + ".delay").param(), blocking=n["blocking"],
                               in_edge_selection=policy(n["in_sel"], oid + ".in"),
-                              out_edge_selection=policy(n["out_sel"], oid + ".out"))
+                              out_edge_selection=policy(n["out_sel"], oid + ".out"), **ekw(oid))
             elif t == "splitter":
                 obj = Splitter(env, oid, node_setup_time=n["setup"], processing_delay=seq(n["delay"], oid + ".delay").param(),
                                blocking=n["blocking"], in_edge_selection=policy(n["in_sel"], oid + ".in"),
-                               out_edge_selection=policy(n["out_sel"], oid + ".out"))
+                               out_edge_selection=policy(n["out_sel"], oid + ".out"), **ekw(oid))
             elif t == "combiner":
                 obj = Combiner(env, oid, node_setup_time=n["setup"], target_quantity_of_each_item=list(n["recipe"]),
                                processing_delay=seq(n["delay"], oid + ".delay").param(), blocking=n["blocking"],
-                               out_edge_selection=policy(n["out_sel"], oid + ".out"))
+                               out_edge_selection=policy(n["out_sel"], oid + ".out"), **ekw(oid))
             else:
-                obj = Sink(env, oid)
+                obj = Sink(env, oid, **ekw(oid, with_out=False))
             obj._spec = n
             m.nodes[oid] = obj
         else:
